@@ -143,7 +143,8 @@ def close(g, e, tol, atol):
 # --------------------------------------------------------------------------
 # leaves: (kind, payload) -> real object / model
 # --------------------------------------------------------------------------
-STREAM_KINDS = ["s_list", "s_tuple", "s_gen", "s_iter", "s_range", "s_chain", "s_cyc", "s_per", "s_const"]
+STREAM_KINDS = ["s_list", "s_tuple", "s_gen", "s_iter", "s_range", "s_chain", "s_cyc", "s_per", "s_const",
+                "s_rep", "s_rep2"]
 PLAIN_KINDS = ["list", "tuple", "gen", "iter", "deque", "range", "scalar"]
 # Stream(a) / Stream(a, b, c) are endless by construction (itertools.repeat / cycle):
 # they only ever meet a finite iterable operand of a binary operator, so that a stage
@@ -160,6 +161,10 @@ def b_leaf(kind, p):
     return Stream(el(p))
   if kind == "s_per":
     return Stream(*els(p))
+  if kind == "s_rep":       # a *finite* constant Stream: itertools.repeat(value, times)
+    return Stream(itertools.repeat(el(p[0]), p[1]))
+  if kind == "s_rep2":      # the same through audiolazy's own wrapper
+    return audiolazy.lazy_itertools.repeat(el(p[0]), p[1])
   if kind == "s_chain":
     return Stream(els(p[0]), (v for v in els(p[1])))
   if kind == "s_cyc":
@@ -208,6 +213,8 @@ def m_leaf(kind, p):
   if kind in ("s_per", "s_cyc"):
     vs = els(p)
     return M([vs[i % len(vs)] for i in range(H)], ENDLESS)
+  if kind in ("s_rep", "s_rep2"):
+    return M([el(p[0])] * p[1], {STOP})
   if kind == "s_chain":
     return M(els(p[0]) + els(p[1]), {STOP})
   if kind in ("range", "s_range"):
@@ -393,6 +400,7 @@ def stream_leaf(spec, endless="cyc"):
                      st.tuples(st.just("s_const"), e))
   opts = [st.tuples(st.just(k), lst(e)) for k in ("s_list", "s_tuple", "s_gen", "s_iter")]
   opts.append(st.tuples(st.just("s_chain"), st.tuples(st.lists(e, max_size=3), st.lists(e, max_size=3))))
+  opts.append(st.tuples(st.sampled_from(["s_rep", "s_rep2"]), st.tuples(e, st.integers(0, 5))))
   if r is not None:
     opts.append(st.tuples(st.just("s_range"), r))
   if endless == "cyc":
@@ -549,6 +557,8 @@ def _grid_leaf(kind, vec, which):
     return (kind, scalar)
   if kind in ("s_per", "s_cyc"):
     return (kind, xs[:3])
+  if kind in ("s_rep", "s_rep2"):
+    return (kind, (scalar, max(1, len(xs) - 2)))
   if kind == "s_chain":
     return (kind, (xs[:2], xs[2:]))
   if kind in ("range", "s_range"):
